@@ -1,4 +1,7 @@
 import GoSSE.Proofs.Lines
+import GoSSE.Proofs.ParserRun
+import GoSSE.Proofs.ParserStop
+import GoSSE.Proofs.ParserToken
 /-!
 # C01 — event-stream interpretation conforms to the WHATWG algorithm
 
@@ -15,5 +18,91 @@ theorem lines_conform (s : Bytes) : chunks (s.length + 1) s = splitLines s [] fa
 
 /-- non-vacuity: a CRLF/CR/LF mix -/
 example : chunks 100 [100, 13, 10, 101, 13, 102, 10, 103] = ([[100], [101], [102]], [103]) := by decide
+
+/-- One line: `scanSegment` followed by one iteration of the `switch` in `read()` does to the
+interpreter state exactly what the specification's `procLine` does — for every byte string
+`l`, both entry points. (`CleanInv`: `read()` clears `typ` and `sb` whenever it clears `dirty`.) -/
+theorem line_conforms (conn : Bool) (st : RState) (l : Bytes) (h : CleanInv st) :
+    procLine .gosse conn (toI st) l = (toI (lineStep conn st l).1, (lineStep conn st l).2) ∧
+    CleanInv (lineStep conn st l).1 :=
+  lineStep_conforms conn st l h
+
+/-- non-vacuity of `CleanInv`: the initial state of `read()` -/
+example (lastID : Bytes) : CleanInv { lastID := lastID } := by simp [CleanInv]
+
+/-- One token: draining the `FieldParser` over a token (`drainFP` = the loop of `read()`
+restricted to one `Reset`) interprets exactly the lines the specification's splitter finds in it,
+and `FieldParser.Err` is set iff the token ends in an unterminated line. -/
+theorem token_fields_conform (conn : Bool) (tok : Bytes) (st : RState) (h : CleanInv st) :
+    let r := drainFP conn (tok.length + 1) { data := tok } st []
+    let sp := splitLines tok [] false
+    interp .gosse conn (toI st) sp.1 = (toI r.2.1, r.2.2) ∧ r.1.err = !sp.2.isEmpty :=
+  token_fields conn tok st h
+
+/-- One `splitFunc` step before the end of the input: if it returns `(adv, tok)`, then running
+the specification over the `adv` consumed bytes (skipped blank lines included) from an event
+boundary — whether or not an LF is still to be swallowed (`sk`) — gives what `read()` makes of
+`tok`, leaves no partial line, and ends at an event boundary again, without `ErrUnexpectedEOF`. -/
+theorem token_step_conforms (conn : Bool) (data : Bytes) (adv : Nat) (tok : Bytes) (st : RState) (sk : Bool)
+    (hsplit : splitFunc data false = (adv, some tok)) (h : CleanInv st) (hb : Boundary (toI st)) :
+    let r := drainFP conn (tok.length + 1) { data := tok } st []
+    let sp := splitLines (data.take adv) [] sk
+    interp .gosse conn (toI st) sp.1 = (toI r.2.1, r.2.2) ∧ sp.2 = [] ∧
+    Boundary (toI r.2.1) ∧ r.1.err = false ∧ adv ≤ data.length :=
+  token_step conn data adv tok st sk hsplit h hb
+
+/-- non-vacuity: a buffer "\n\rdata:x\r\n\rid" holds the token "data:x\r\n\r" after two blank-line bytes -/
+example : splitFunc [10, 13, 100, 97, 116, 97, 58, 120, 13, 10, 13, 105, 100] false =
+    (11, some [100, 97, 116, 97, 58, 120, 13, 10, 13]) ∧
+    Boundary (toI { lastID := [] }) ∧ CleanInv { lastID := [] } := by
+  refine ⟨by decide, by simp [Boundary, toI], by simp [CleanInv]⟩
+
+/-- **Refinement.** For every source (every chunking of every byte string, both end kinds,
+error delivered with the last bytes or not), both entry points, every scanner configuration
+and every initial last-event ID: either the run ends in `bufio.ErrTooLong` and what was yielded
+until then is a prefix of what the WHATWG specification prescribes, or events, retry reports and
+the final error are exactly those of the specification. (The `io.Reader` contract "no empty
+reads" is not needed by the model.) -/
+theorem read_conforms_or_toolong (conn : Bool) (lastID : Bytes) (src : Source) (cfg : Option (Nat × Int)) :
+    let r := implRun conn lastID src cfg none
+    let sp := Spec.run .gosse conn lastID src.chunks.flatten (if src.endErr then .err else .eof)
+    (r.2.1 = PErr.tooLong ∧ r.1 <+: sp.1) ∨ (r.1 = sp.1 ∧ r.2.1 = endErr conn sp.2) :=
+  implRun_conforms conn lastID src cfg
+
+/-- How the bytes are cut into reads does not matter (as long as no run hits the scanner's
+token limit): same bytes, same end kind ⇒ same events, retries and error. -/
+theorem segmentation_independent (conn : Bool) (lastID : Bytes) (src₁ src₂ : Source)
+    (cfg₁ cfg₂ : Option (Nat × Int))
+    (hbytes : src₁.chunks.flatten = src₂.chunks.flatten) (hend : src₁.endErr = src₂.endErr)
+    (h₁ : (implRun conn lastID src₁ cfg₁ none).2.1 ≠ PErr.tooLong)
+    (h₂ : (implRun conn lastID src₂ cfg₂ none).2.1 ≠ PErr.tooLong) :
+    (implRun conn lastID src₁ cfg₁ none).1 = (implRun conn lastID src₂ cfg₂ none).1 ∧
+    (implRun conn lastID src₁ cfg₁ none).2.1 = (implRun conn lastID src₂ cfg₂ none).2.1 := by
+  have a₁ := implRun_conforms conn lastID src₁ cfg₁
+  have a₂ := implRun_conforms conn lastID src₂ cfg₂
+  simp only at a₁ a₂
+  rw [hbytes, hend] at a₁
+  rcases a₁ with ⟨e, _⟩ | ⟨o₁, e₁⟩
+  · exact absurd e h₁
+  rcases a₂ with ⟨e, _⟩ | ⟨o₂, e₂⟩
+  · exact absurd e h₂
+  exact ⟨o₁.trans o₂.symm, e₁.trans e₂.symm⟩
+
+/-- non-vacuity: the same stream whole and byte-pair-wise -/
+example : (implRun true [] { chunks := [[100, 97, 116, 97, 58, 120, 10, 10]], endErr := false } none none).2.1 ≠ PErr.tooLong ∧
+    (implRun true [] { chunks := [[100, 97], [116, 97], [58, 120], [10, 10]], endErr := false } none none).2.1 ≠ PErr.tooLong := by
+  decide
+
+/-- A consumer that returns `false` from its `k`-th event yield sees exactly the first `k`
+event yields of the full run (with the retries reported before the `k`-th event); if the run
+was cut no error is yielded; if the full run has fewer than `k` events nothing changes. -/
+theorem early_stop_is_prefix (conn : Bool) (lastID : Bytes) (src : Source) (cfg : Option (Nat × Int))
+    (k : Nat) (hk : 1 ≤ k) :
+    let r := implRun conn lastID src cfg none
+    let rk := implRun conn lastID src cfg (some k)
+    rk.1 = takeEvents k r.1 ∧
+    (k ≤ countEvents r.1 → rk.2.1 = PErr.none) ∧
+    (countEvents r.1 < k → rk = r) :=
+  implRun_early_stop conn lastID src cfg k hk
 
 end GoSSE.Props.C01
